@@ -15,7 +15,7 @@ RULE = ('functions {quintic polynomial, exp, sin, cos, exp*sin, sin*cos, 1/(x-5)
         'diff, diffs (finite n, and the unbounded generator cut at 8), diffun, taylor (coefficients f^(k)/k!, incl. the chop of zero coefficients), partial derivatives of '
         'x^3y^2+exp(x)sin(y) for all orders (a,b) with a+b<=4.  Tolerance 2^(10-p)*max(|exact|,1) (for the one-sided formulas also 2^-10*|f^(n+1)|, their first-order truncation term).  difference(s,n) == exact forward difference for ALL s in '
         '{-2..2}^(n+1), n<=4, and Fraction/mpf sequences to n=12.  differint of x^k, k in {0,1,2,5/2}, orders {-1,-1/2,1/2,1,3/2,2} at x in {1/2,2,3} vs '
-        'Gamma(k+1)/Gamma(k-n+1) x^(k-n).  pade(a,L,M) for the series of exp, log(1+x)/x, 1/(1-x)^(1/2), a rational function, for all 0<=L,M<=5: returned q has q0=1 and '
+        'Gamma(k+1)/Gamma(k-n+1) x^(k-n).  pade(a,L,M) for the series of exp, log(1+x)/x, 1/(1-x)^(1/2), a rational function, for all 0<=L,M<=5, with exactly L+M+1 and with L+M+4 coefficients supplied: returned q has q0=1 and '
         'sum_j q_j a_(k-j) - p_k vanishes for k<=L+M to 2^(10-p) relative to the largest term.  non-trivial = every problem; distinct by construction')
 ASSUMPTIONS = ['closed forms evaluated by the library at 3x precision (exp/sin/cos/gamma checked by C12/C18)']
 BOUNDS = {'quick': 'precisions {30,53,100}', 'thorough': 'adds 300'}
@@ -348,34 +348,35 @@ def t_pade(task):
                 for M in range(0, 6):
                     if name == '(1+2x)/(1-x-x^2)' and L >= 2 and M >= 3:
                         continue            # the exact approximant is degenerate (singular system)
-                    A = series(name, L + M + 1)
-                    mp.prec = p
-                    a = [mp.mpf(x.numerator) / x.denominator for x in A]
-                    case = ['pade', name, L, M, p]
-                    try:
-                        pc, qc = mp.pade(a, L, M)
-                    except ZeroDivisionError:
-                        acc.evals += 1; acc.count('singular'); continue
-                    except Exception as e:
-                        acc.evals += 1
-                        acc.violation(case, 'pade(%s, %d, %d) raised %r' % (name, L, M, e), kind='raise', api='pade'); continue
-                    acc.evals += 1; acc.nontrivial += 1
-                    if len(pc) != L + 1 or len(qc) != M + 1 or qc[0] != 1:
-                        acc.violation(case, 'pade(%s, %d, %d): len(p)=%d len(q)=%d q0=%s' % (name, L, M, len(pc), len(qc), qc[0]), kind='shape', api='pade'); continue
-                    P = [Fraction(*to_q(x._mpf_)) for x in pc]; Q = [Fraction(*to_q(x._mpf_)) for x in qc]
-                    Aq = [Fraction(*to_q(x._mpf_)) for x in a]
-                    worst = None
-                    for k in range(L + M + 1):
-                        terms = [Q[j] * Aq[k - j] for j in range(0, min(k, M) + 1)]
-                        pk = P[k] if k <= L else Fraction(0)
-                        resid = abs(sum(terms) - pk)
-                        scale = max([abs(t) for t in terms] + [abs(pk), Fraction(1)])
-                        if resid > scale * Fraction(2) ** (10 - p):
-                            worst = (k, resid / scale)
-                            break
-                    if worst:
-                        acc.violation(case, 'pade(%s, %d, %d) at prec %d: series of p - q*a has a nonzero coefficient at order %d (relative size 2^%d)' % (name, L, M, p, worst[0], worst[1].numerator.bit_length() - worst[1].denominator.bit_length()),
-                                      kind='accuracy', api='pade', series=name)
+                    for extra in (0, 3):                  # the list may hold more than the L+M+1 coefficients that are used
+                        A = series(name, L + M + 1 + extra)
+                        mp.prec = p
+                        a = [mp.mpf(x.numerator) / x.denominator for x in A]
+                        case = ['pade', name, L, M, p, extra]
+                        try:
+                            pc, qc = mp.pade(a, L, M)
+                        except ZeroDivisionError:
+                            acc.evals += 1; acc.count('singular'); continue
+                        except Exception as e:
+                            acc.evals += 1
+                            acc.violation(case, 'pade(%s, %d, %d) raised %r' % (name, L, M, e), kind='raise', api='pade'); continue
+                        acc.evals += 1; acc.nontrivial += 1
+                        if len(pc) != L + 1 or len(qc) != M + 1 or qc[0] != 1:
+                            acc.violation(case, 'pade(%s, %d, %d): len(p)=%d len(q)=%d q0=%s' % (name, L, M, len(pc), len(qc), qc[0]), kind='shape', api='pade'); continue
+                        P = [Fraction(*to_q(x._mpf_)) for x in pc]; Q = [Fraction(*to_q(x._mpf_)) for x in qc]
+                        Aq = [Fraction(*to_q(x._mpf_)) for x in a]
+                        worst = None
+                        for k in range(L + M + 1):
+                            terms = [Q[j] * Aq[k - j] for j in range(0, min(k, M) + 1)]
+                            pk = P[k] if k <= L else Fraction(0)
+                            resid = abs(sum(terms) - pk)
+                            scale = max([abs(t) for t in terms] + [abs(pk), Fraction(1)])
+                            if resid > scale * Fraction(2) ** (10 - p):
+                                worst = (k, resid / scale)
+                                break
+                        if worst:
+                            acc.violation(case, 'pade(%s, %d, %d) at prec %d: series of p - q*a has a nonzero coefficient at order %d (relative size 2^%d)' % (name, L, M, p, worst[0], worst[1].numerator.bit_length() - worst[1].denominator.bit_length()),
+                                          kind='accuracy', api='pade', series=name, extra=bool(extra))
         acc.sample(['pade', 'exp', 3, 3, p])
     finally:
         mp.prec = 53
